@@ -3,6 +3,7 @@ spec/Timer.tla, MC_Timer.tla, T_Timer.tla; harness/src/probe_timer.cpp)."""
 import json
 import os
 import random
+import shutil
 import re
 from concurrent.futures import ThreadPoolExecutor
 
@@ -49,19 +50,25 @@ def commands(hist, scale, rng, nowait):
 
 def run_scheds(ctx, binary, scheds, nproc=8):
     env = build.run_env()
+    # the timer thread logs its termination through fix8's global logger, which writes
+    # global_filename_not_set.log* into the current directory: give it a scratch one
+    wd = os.path.join(ctx.workdir, "c31_cwd")
+    shutil.rmtree(wd, ignore_errors=True)
+    os.makedirs(wd)
     nproc = max(1, min(nproc, len(scheds) // 10 or 1))
     parts = [list(range(i, len(scheds), nproc)) for i in range(nproc)]
 
     def one(pi):
         text = "\n".join("\n".join(scheds[j]) for j in parts[pi]) + "\nquit\n"
-        evs, rc, err = core.run_probe(binary, text, env, timeout=900)
+        evs, rc, err = core.run_probe(binary, text, env, timeout=900, cwd=wd)
         if rc != 0:
             ctx.extra["transient_probe_aborts"] = ctx.extra.get("transient_probe_aborts", 0) + 1
             ctx.extra.setdefault("transient_abort_reports", []).append("rc %d: %s" % (rc, core.san_report(err, 1500)))
-            evs, rc, err = core.run_probe(binary, text, env, timeout=900)
+            evs, rc, err = core.run_probe(binary, text, env, timeout=900, cwd=wd)
         return evs, rc, err
     with ThreadPoolExecutor(max_workers=nproc) as ex:
         res = list(ex.map(one, range(nproc)))
+    shutil.rmtree(wd, ignore_errors=True)
     execs = [None] * len(scheds)
     aborts = []
     for pi, (evs, rc, err) in enumerate(res):
